@@ -141,7 +141,7 @@ def stage(name, prop, cases_fn, nontrivial=None, extra_aux=None, procs=None):
     if extra_aux:
         aux.update(extra_aux)
     return Stage(name, "Trace_Algo", algorun.run_case, cases_fn, nontrivial or (lambda r: r["out"] == "consensus"),
-                 algorun.init, aux=aux, procs=procs, chunk=10000)
+                 algorun.init, aux=aux, procs=procs, chunk=10000, killable=algorun.KILLABLE)
 
 
 def n_elems(rec):
